@@ -12,6 +12,6 @@ open StarsimModel.C10
 #print axioms C10_death_timing_next_step
 #print axioms C10_death_permanent
 #print axioms C10_multi_request
-#print axioms cmp_eq_le
 #print axioms C10_flow_partial
+#print axioms C10_balance
 #print axioms C10_flow_counterexample
